@@ -85,6 +85,14 @@ def isPop : LogE → Bool
   | .pop _ _ => true
   | _ => false
 
+/-- The time of a `.pop` entry. -/
+def popTime : LogE → Option Int
+  | .pop t _ => some t
+  | _ => none
+
+theorem popTime_of_not_pop (e : LogE) (h : isPop e = false) : popTime e = none := by
+  cases e <;> first | rfl | cases h
+
 /-- The clock according to the history: the last clock entry (0 before the first). -/
 def curClock (l : List LogE) : Int := ((l.filterMap clk).getLast?).getD 0
 
@@ -96,6 +104,8 @@ structure QW (s : SimS) : Prop where
   wf : AllP SEvent.WF s.queue
   now : s.now = curClock s.log.toList
   pops : PopsAtClock s.log.toList
+  popsLe : ∀ t ∈ s.log.toList.filterMap popTime, t ≤ s.now
+  popsMono : (s.log.toList.filterMap popTime).Pairwise (· ≤ ·)
 
 /-- The queue invariant. -/
 structure QInv (s : SimS) : Prop where
@@ -103,18 +113,24 @@ structure QInv (s : SimS) : Prop where
   heap : HeapFrom SEvent.lt s.queue 0
   now : s.now = curClock s.log.toList
   pops : PopsAtClock s.log.toList
+  /-- no event was popped at a time later than the current clock -/
+  popsLe : ∀ t ∈ s.log.toList.filterMap popTime, t ≤ s.now
+  /-- the times of the popped events, in pop order, are non-decreasing -/
+  popsMono : (s.log.toList.filterMap popTime).Pairwise (· ≤ ·)
 
-theorem QInv.weak {s : SimS} (h : QInv s) : QW s := ⟨h.wf, h.now, h.pops⟩
+theorem QInv.weak {s : SimS} (h : QInv s) : QW s := ⟨h.wf, h.now, h.pops, h.popsLe, h.popsMono⟩
 
 theorem QInv.congr (s s' : SimS) (h : QInv s) (hq : s'.queue = s.queue) (hl : s'.log = s.log) (hn : s'.now = s.now) :
     QInv s' := by
-  obtain ⟨a, b, c, d⟩ := h
-  exact ⟨by rw [hq]; exact a, by rw [hq]; exact b, by rw [hn, hl]; exact c, by rw [hl]; exact d⟩
+  obtain ⟨a, b, c, d, e, f⟩ := h
+  exact ⟨by rw [hq]; exact a, by rw [hq]; exact b, by rw [hn, hl]; exact c, by rw [hl]; exact d,
+    by rw [hl, hn]; exact e, by rw [hl]; exact f⟩
 
 theorem QW.congr (s s' : SimS) (h : QW s) (hq : s'.queue = s.queue) (hl : s'.log = s.log) (hn : s'.now = s.now) :
     QW s' := by
-  obtain ⟨a, c, d⟩ := h
-  exact ⟨by rw [hq]; exact a, by rw [hn, hl]; exact c, by rw [hl]; exact d⟩
+  obtain ⟨a, c, d, e, f⟩ := h
+  exact ⟨by rw [hq]; exact a, by rw [hn, hl]; exact c, by rw [hl]; exact d, by rw [hl, hn]; exact e,
+    by rw [hl]; exact f⟩
 
 theorem curClock_push_other (l : List LogE) (e : LogE) (he : clk e = none) : curClock (l ++ [e]) = curClock l := by
   simp [curClock, List.filterMap_append, he]
@@ -142,39 +158,66 @@ theorem popsAtClock_push (l : List LogE) (e : LogE) (h : PopsAtClock l)
 /-- Appending a history entry that is neither a clock entry nor a pop. -/
 theorem QInv.log (s : SimS) (e : LogE) (h : QInv s) (h1 : clk e = none) (h2 : isPop e = false) :
     QInv { s with log := s.log.push e } := by
-  obtain ⟨a, b, c, d⟩ := h
-  refine ⟨a, b, ?_, ?_⟩
+  obtain ⟨a, b, c, d, e', f⟩ := h
+  have hp := popTime_of_not_pop e h2
+  refine ⟨a, b, ?_, ?_, ?_, ?_⟩
   · simp only [Array.toList_push]; rw [curClock_push_other _ _ h1]; exact c
   · simp only [Array.toList_push]
     exact popsAtClock_push _ _ d (fun t ty he => by subst he; cases h2)
+  · simpa [List.filterMap_append, hp] using e'
+  · simpa [List.filterMap_append, hp] using f
 
 theorem QW.log (s : SimS) (e : LogE) (h : QW s) (h1 : clk e = none) (h2 : isPop e = false) :
     QW { s with log := s.log.push e } := by
-  obtain ⟨a, c, d⟩ := h
-  refine ⟨a, ?_, ?_⟩
+  obtain ⟨a, c, d, e', f⟩ := h
+  have hp := popTime_of_not_pop e h2
+  refine ⟨a, ?_, ?_, ?_, ?_⟩
   · simp only [Array.toList_push]; rw [curClock_push_other _ _ h1]; exact c
   · simp only [Array.toList_push]
     exact popsAtClock_push _ _ d (fun t ty he => by subst he; cases h2)
+  · simpa [List.filterMap_append, hp] using e'
+  · simpa [List.filterMap_append, hp] using f
 
 /-- The pop entry of an event handled at its own time. -/
 theorem QInv.logPop (s : SimS) (t : Int) (ty : Nat) (h : QInv s) (ht : s.now = t) :
     QInv { s with log := s.log.push (.pop t ty) } := by
-  obtain ⟨a, b, c, d⟩ := h
-  refine ⟨a, b, ?_, ?_⟩
+  obtain ⟨a, b, c, d, e, f⟩ := h
+  refine ⟨a, b, ?_, ?_, ?_, ?_⟩
   · simp only [Array.toList_push]; rw [curClock_push_other _ _ rfl]; exact c
   · simp only [Array.toList_push]
     refine popsAtClock_push _ _ d (fun t' ty' he => ?_)
     cases he
     rw [← ht]; exact c
+  · intro x hx
+    simp only [Array.toList_push, List.filterMap_append, List.filterMap_cons, popTime, List.filterMap_nil,
+      List.mem_append, List.mem_singleton] at hx
+    rcases hx with hx | rfl
+    · exact e x hx
+    · exact Int.le_of_eq ht.symm
+  · simp only [Array.toList_push, List.filterMap_append, List.filterMap_cons, popTime, List.filterMap_nil]
+    rw [List.pairwise_append]
+    refine ⟨f, by simp, ?_⟩
+    intro x hx y hy
+    rw [List.mem_singleton.mp hy, ← ht]
+    exact e x hx
 
 /-- Advancing the clock. -/
-theorem QInv.clock (s : SimS) (dt : Int) (h : QInv s) :
+theorem QInv.clock (s : SimS) (dt : Int) (h : QInv s) (hdt : 0 ≤ dt) :
     QInv { s with now := s.now + dt, log := s.log.push (.clock (s.now + dt)) } := by
-  obtain ⟨a, b, c, d⟩ := h
-  refine ⟨a, b, ?_, ?_⟩
+  obtain ⟨a, b, c, d, e, f⟩ := h
+  refine ⟨a, b, ?_, ?_, ?_, ?_⟩
   · simp only [Array.toList_push]; rw [curClock_push_clock]
   · simp only [Array.toList_push]
     exact popsAtClock_push _ _ d (fun t ty he => by cases he)
+  · intro x hx
+    simp only [Array.toList_push, List.filterMap_append, List.filterMap_cons, popTime, List.filterMap_nil,
+      List.append_nil] at hx
+    have := e x hx
+    show x ≤ s.now + dt
+    omega
+  · simp only [Array.toList_push, List.filterMap_append, List.filterMap_cons, popTime, List.filterMap_nil,
+      List.append_nil]
+    exact f
 
 /-! ### queue operations -/
 
@@ -188,10 +231,11 @@ theorem allP_push {P : SEvent → Prop} {q : Array SEvent} {e : SEvent} (h : All
 
 theorem QInv.add (s : SimS) (e : SEvent) (h : QInv s) (he : e.WF) :
     QInv { s with queue := heappush SEvent.lt s.queue e } :=
-  ⟨AllP.of_perm (heappush_perm ..) (allP_push h.wf he), heappush_heap sevent_swo s.queue e h.wf he h.heap, h.now, h.pops⟩
+  ⟨AllP.of_perm (heappush_perm ..) (allP_push h.wf he), heappush_heap sevent_swo s.queue e h.wf he h.heap, h.now, h.pops,
+    h.popsLe, h.popsMono⟩
 
 theorem QW.heapify (s : SimS) (h : QW s) : QInv { s with queue := heapify SEvent.lt s.queue } :=
-  ⟨AllP.of_perm (heapify_perm ..) h.wf, heapify_heap sevent_swo s.queue h.wf, h.now, h.pops⟩
+  ⟨AllP.of_perm (heapify_perm ..) h.wf, heapify_heap sevent_swo s.queue h.wf, h.now, h.pops, h.popsLe, h.popsMono⟩
 
 theorem allP_erase {P : SEvent → Prop} {q : Array SEvent} (h : AllP P q) (i : Nat) : AllP P (q.eraseIdxIfInBounds i) := by
   rw [allP_iff_mem] at *
@@ -203,11 +247,11 @@ theorem allP_erase {P : SEvent → Prop} {q : Array SEvent} (h : AllP P q) (i : 
 
 theorem QInv.remove (s : SimS) (i : Nat) (h : QInv s) :
     QInv { s with queue := heapify SEvent.lt (s.queue.eraseIdxIfInBounds i) } :=
-  QW.heapify { s with queue := s.queue.eraseIdxIfInBounds i } ⟨allP_erase h.wf i, h.now, h.pops⟩
+  QW.heapify { s with queue := s.queue.eraseIdxIfInBounds i } ⟨allP_erase h.wf i, h.now, h.pops, h.popsLe, h.popsMono⟩
 
 theorem QInv.edit (s : SimS) (eid : Nat) (f : SEvent → SEvent) (h : QInv s) (hf : ∀ e, e.WF → (f e).WF) :
     QW { s with queue := s.queue.map (fun e => if e.ev.eid == eid then f e else e) } := by
-  refine ⟨?_, h.now, h.pops⟩
+  refine ⟨?_, h.now, h.pops, h.popsLe, h.popsMono⟩
   have hw := allP_iff_mem.mp h.wf
   rw [allP_iff_mem]
   intro y hy
@@ -218,7 +262,7 @@ theorem QInv.edit (s : SimS) (eid : Nat) (f : SEvent → SEvent) (h : QInv s) (h
 
 theorem QInv.pop (s : SimS) (e : SEvent) (q : Array SEvent) (h : QInv s) (hp : heappop SEvent.lt s.queue = some (e, q)) :
     QInv { s with queue := q } := by
-  refine ⟨?_, heappop_heap sevent_swo s.queue e q h.wf h.heap hp, h.now, h.pops⟩
+  refine ⟨?_, heappop_heap sevent_swo s.queue e q h.wf h.heap hp, h.now, h.pops, h.popsLe, h.popsMono⟩
   have hperm := heappop_perm SEvent.lt s.queue e q hp
   have hw := allP_iff_mem.mp h.wf
   rw [allP_iff_mem]
